@@ -40,8 +40,13 @@ RULE = ("sweep: every element (119), isotope, element ion and isotope ion of the
         "match the key (Z->symbol from an independent list). invalid: every 1-2 letter string that is not a symbol, "
         "table attribute names, case/blank variants of every name, 'A-Sym' for every A not in el.isotopes within "
         "[min-3, max+3] plus far values, malformed 'Sym-A'/'A-Sym-x'/'4-D' strings, el[A] for A not defined, every "
-        "charge in [-10, 10] not in el.ions (elements and all isotopes) must raise; afterwards the valid lookups still "
-        "return the same objects. machine: Hypothesis draws 1-3 atoms (all classes incl. D/T) and 2-30 operations on "
+        "charge in [-10, 10] not in el.ions (elements and all isotopes) must raise; numeric keys of table[Z], el[A] and "
+        ".ion[c] that are no valid key (negatives of valid keys incl. -1..-120, out of range, 1.5, '1', None, tuples, slices, "
+        "charge 0) must raise or return an atom whose number/isotope/charge equals the key (1.0, True); afterwards the valid lookups still "
+        "return the same objects. growth: four private-table histories (all lists read first / isotope('2-H') first / iteration first / "
+        "nothing first), then mass.init, the other loaders, and add_isotope of unused mass numbers for every element "
+        "with listings in between; after every step el.isotopes == iteration == the A for which el[A] and "
+        "isotope('A-Sym') give the one object. machine: Hypothesis draws 1-3 atoms (all classes incl. D/T) and 2-30 operations on "
         "public/T1/T2, run in a forked pristine interpreter against a registry model; non-trivial = some (table, atom) "
         "is reached by >= 2 different operation kinds; distinct by the operation list. Every swept object and every "
         "invalid key is non-trivial (finite domain, swept completely).")
@@ -52,7 +57,9 @@ ASSUMPTIONS = [
     "only by surrounding white space, str keys for el[A], historical symbols (Uuo) and 'A-<name>' are neither generated "
     "nor judged; "
     "'0-Sym' (mass number 0, which is in no isotope list) IS judged, in its own bucket",
-    "el.ion[0] and non-integer keys are not generated; table.isotope(<element name>) is not judged (the class "
+    "numeric keys that are no valid key (el.ion[0], 1.5, 1.0, True, None, slices) may raise or return an atom that carries "
+    "the key; float keys equal to a valid charge are not asked of .ion (the new Ion would store the float); "
+    "table.isotope(<element name>) is not judged (the class "
     "docstring of PeriodicTable mentions it, the code rejects it)",
     "os.fork of a process that imported periodictable but touched nothing is a faithful pristine interpreter",
 ]
@@ -323,6 +330,119 @@ def check_iteration(T, cfg):
             yield ("c08:iter:ions-order", "%s: %s.ions %r not strictly increasing" % (cfg, el, el.ions))
 
 
+def check_agreement(T, cfg, Zs=None):
+    """Every way of enumerating / addressing the isotopes of an element must agree: el.isotopes, iteration,
+    el[A] and table.isotope('A-Sym').  Yields (bucket, message)."""
+    for Z in (range(119) if Zs is None else Zs):
+        el = T[Z]
+        sym = SYMBOLS[Z]
+        objs = list(el)
+        seen = [i.isotope for i in objs]
+        listed = list(el.isotopes)
+        if seen != sorted(set(seen)):
+            yield ("c08:iter:isotope-order", "%s: list(%s) mass numbers %r not strictly increasing" % (cfg, sym, seen[:8]))
+        if listed != seen:
+            yield ("c08:agree:isotopes-list", "%s: %s.isotopes lists %d mass numbers, iteration visits %d (only one has %r)"
+                   % (cfg, sym, len(listed), len(seen), sorted(set(listed) ^ set(seen))[:6]))
+        for i in objs:
+            A = i.isotope
+            try:
+                g = el[A]
+            except Exception as e:  # noqa
+                g = e
+            if g is not i:
+                yield ("c08:agree:getitem", "%s: %s[%d] gives %r, iteration visits %r" % (cfg, sym, A, g, i))
+            try:
+                g = T.isotope("%d-%s" % (A, sym))
+            except Exception as e:  # noqa
+                yield ("c08:agree:isostr-raises", "%s: table.isotope('%d-%s') raises %s although %s[%d] exists"
+                       % (cfg, A, sym, type(e).__name__, sym, A))
+                continue
+            if g is not i:
+                yield ("c08:agree:isostr-identity", "%s: table.isotope('%d-%s') is not %s[%d]" % (cfg, A, sym, sym, A))
+
+
+GROWTH_VARIANTS = ["list-all-first", "isostr-first", "iterate-first", "no-early-lookup"]
+
+
+def _unused(el, r=0):
+    """A mass number the element does not have (found through iteration, which lists nothing)."""
+    have = set(i.isotope for i in el)
+    hi = max(have) if have else 0
+    lo = min(have) if have else 2
+    cands = [n for n in (hi + 1, hi + 2, lo - 1, hi + 7, 400 + r % 50) if n > 0 and n not in have]
+    return cands[r % len(cands)]
+
+
+def growth_history(variant, report, case_fn=None):
+    """A private table whose first listings / lookups happen BEFORE the loaders and add_isotope() add isotopes.
+    report(bucket, message) is called for every disagreement; case_fn(stage, Z) counts the cases."""
+    from periodictable import core, mass, density
+    _ENV["growth-n"] = _ENV.get("growth-n", 0) + 1
+    name = "c08-growth-%s-%d" % (variant, _ENV["growth-n"])
+    T = core.PeriodicTable(name)
+
+    def stage(label, Zs=None):
+        for Z in (range(119) if Zs is None else Zs):
+            if case_fn:
+                case_fn(label, Z)
+        for b, m in check_agreement(T, "%s@%s" % (variant, label), Zs):
+            report(b, m)
+
+    # early use of the still empty table
+    if variant == "list-all-first":
+        for el in T:
+            el.isotopes
+    elif variant == "isostr-first":
+        T.isotope("2-H"), T.isotope("D"), T.isotope("3-H")
+        for Z in range(0, 119, 7):
+            try:
+                T.isotope("%d-%s" % (2 * Z + 1, SYMBOLS[Z]))
+            except ValueError:
+                pass
+    elif variant == "iterate-first":
+        for el in T:
+            list(el)
+    stage("bare")
+    mass.init(T)
+    density.init(T)
+    stage("mass")
+    _touch_public(["neutron", "neutron_activation"])      # public first: the rest is C10's business
+    for e in ("nsf.init", "activation.init", "xsf.init"):
+        try:
+            _init(T, e)
+        except Exception:  # noqa
+            pass
+    stage("loaders")
+    # add_isotope of unused mass numbers after the lists were read, twice, with a listing in between
+    added = []
+    for rnd in (0, 1):
+        for Z in range(119):
+            el = T[Z]
+            if (Z + rnd) % 3 == 0:
+                el.isotopes
+            n = _unused(el, Z + rnd)
+            new = el.add_isotope(n)
+            if new is not el[n] or new.isotope != n or new.element is not el:
+                report("c08:agree:add_isotope", "%s: %s.add_isotope(%d) returned %r" % (variant, el, n, new))
+            added.append((Z, n))
+        stage("grown-%d" % rnd)
+    # the new isotopes and their ions are atoms like all others
+    for Z, n in added[::5]:
+        for key in [(Z, n, 0)] + [(Z, n, c) for c in T[Z].ions[:2]]:
+            if case_fn:
+                case_fn("new-atom", key)
+            for b, m in check_atom(T, variant, key):        # no second table has these isotopes
+                report(b, m)
+
+
+def task_growth(ctx, variant):
+    case = {"kind": "growth", "variant": variant}
+    growth_history(variant, lambda b, m: ctx.violation(b, m, case),
+                   lambda stage, k: ctx.case((variant, stage, k), True, {"growth": variant, "stage": stage, "element": k},
+                                             ["growth:" + variant, "stage:" + stage]))
+
+
 # ----------------------------------------------------------------------
 # sweeps
 def task_sweep(ctx, cfg, part=0, parts=1):
@@ -377,6 +497,41 @@ def _letters():
     return out
 
 
+class _KeyMatches(Exception):
+    """Raised by a 'number key' thunk when the lookup returned an atom that carries the key: acceptable."""
+
+
+def _match_or_return(fn, key, attr):
+    """fn() for a key that is not a documented valid key: either it raises, or it returns an atom whose
+    number / isotope / charge equals the key (keys that hash equal to a valid one, e.g. 1.0 or True): then
+    _KeyMatches is raised, which the callers count as acceptable.  Anything else is returned (= accepted)."""
+    from periodictable import core
+    got = fn()
+    try:
+        if core.isatom(got) and bool(getattr(got, attr, 0 if attr == "isotope" else None) == key):
+            raise _KeyMatches()
+    except _KeyMatches:
+        raise
+    except Exception:  # noqa
+        pass
+    return got
+
+
+def number_keys(valid, lo, hi):
+    """[(label, key, sub-kind)] : numeric neighbours of the valid integer keys and non-integer keys.
+    Labels are the JSON-able names of the keys (slices, None)."""
+    ks = []
+    for v in sorted(set([-1, -2, lo - 1, hi + 1, hi + 2, -hi, -hi - 1, -hi - 2, 10**6, -10**6] + [-x for x in valid if x])):
+        if v not in valid:
+            ks.append((repr(v), v, "negative" if v < 0 else "out-of-range"))
+    mid = sorted(valid)[len(valid) // 2] if valid else 1
+    ks += [("1.5", 1.5, "non-int"), ("%r" % (mid + 0.5), mid + 0.5, "non-int"), ("'%d'" % mid, str(mid), "non-int"),
+           ("None", None, "non-int"), ("slice(1, 3)", slice(1, 3), "slice"), ("slice(None)", slice(None), "slice"),
+           ("slice(-2, None)", slice(-2, None), "slice"), ("(%d,)" % mid, (mid,), "non-int"),
+           ("%r" % float(mid), float(mid), "equal-hash"), ("True", True, "equal-hash")]
+    return ks
+
+
 def invalid_keys(T, Zs=None):
     """[(kind, description, thunk, case)] for every invalid neighbour; thunk must raise."""
     out = []
@@ -417,6 +572,9 @@ def invalid_keys(T, Zs=None):
         for s, As in (("D", (1, 3, 4, 5)), ("T", (1, 2, 4, 5))):
             for A in As:
                 add("isostr:DT-number", "table.isotope", "%d-%s" % (A, s), lambda A=A, s=s: T.isotope("%d-%s" % (A, s)))
+        # atomic numbers are keys too: every neighbour of 0..118 on the table[Z] route
+        for label, k, sub in number_keys(set(range(119)), 0, 118):
+            add("number:" + sub, "table.__getitem__", label, lambda k=k: _match_or_return(lambda: T[k], k, "number"))
         Zs = range(119)
     for Z in Zs:
         el = T[Z]
@@ -434,6 +592,18 @@ def invalid_keys(T, Zs=None):
                   "%d--%s" % (A0, sym), "%d-%s" % (A0, sym.lower() if sym.lower() not in valid_syms else sym + "x"),
                   "%d%s" % (A0, sym), "%s%d" % (sym, A0), "%d-%s%d" % (A0, sym, A0), "x%d-%s" % (A0, sym)):
             add("isostr:malformed", "table.isotope", s, lambda s=s: T.isotope(s))
+        for label, k, sub in number_keys(set(isos), lo, hi):
+            if sub in ("negative", "out-of-range") and lo - 3 <= k <= hi + 3:
+                continue        # covered by getitem:undefined-A
+            add("getitem:" + sub, "table[%d].__getitem__" % Z, label,
+                lambda k=k, el=el: _match_or_return(lambda: el[k], k, "isotope"))
+        for label, k, sub in number_keys(set(el.ions), -10, 10) + [("0", 0, "zero")]:
+            if isinstance(k, float) and k == int(k):
+                continue        # el.ion[2.0] would be cached as an ion of charge 2.0: not asked
+            if sub in ("negative", "out-of-range") and -10 <= k <= 10:
+                continue        # covered by charge:element
+            add("charge:" + sub, "table[%d].ion.__getitem__" % Z, label,
+                lambda k=k, el=el: _match_or_return(lambda: el.ion[k], k, "charge"))
         ions = set(el.ions)
         for c in range(-10, 11):
             if c == 0 or c in ions:
@@ -481,7 +651,7 @@ def task_invalid(ctx, cfg):
 # machine: operation lists run in a forked pristine interpreter
 TBL = ["public", "T1", "T2"]
 COPIES = ["copy", "deepcopy", "deepcopy-dict-key", "pickle-list-twice"]
-BADS = ["charge", "isotope", "isostr", "symbol-case", "name-case", "attribute"]
+BADS = ["charge", "isotope", "isostr", "symbol-case", "name-case", "attribute", "number"]
 
 
 def _spec_key(spec):
@@ -493,7 +663,7 @@ def _spec_key(spec):
 
 def op_strategy(pool):
     idx = st.integers(0, 2)
-    tbl = st.sampled_from(["public", "public", "public", "T1", "T1", "T2"])
+    tbl = st.sampled_from(["public", "public", "public", "T1", "T1", "T2", "T3"])
     ops = st.one_of(
         st.tuples(st.just("look"), tbl, st.integers(0, 23), idx),
         st.tuples(st.just("look"), tbl, st.integers(0, 23), idx),
@@ -505,6 +675,11 @@ def op_strategy(pool):
         st.tuples(st.just("init"), st.sampled_from(INITS), st.sampled_from(["T1", "T2"])),
         st.tuples(st.just("bad"), tbl, st.sampled_from(BADS), idx, st.integers(0, 10**6)),
         st.tuples(st.just("iter"), tbl, idx),
+        st.tuples(st.just("list"), tbl, idx),
+        st.tuples(st.just("grow"), tbl, st.integers(0, 10**4), idx),
+        st.tuples(st.just("grow"), st.sampled_from(["T3", "T3", "T1", "public"]), st.integers(0, 10**4), idx),
+        st.tuples(st.just("init"), st.sampled_from(["mass.init", "mass.init", "density.init", "nsf.init", "activation.init"]),
+                  st.just("T3")),
     ).map(list)
     return st.tuples(st.lists(pool.atom(), min_size=1, max_size=3), st.lists(ops, min_size=2, max_size=30)).map(list)
 
@@ -527,12 +702,19 @@ class _Machine(object):
             from periodictable import core, mass, density
             if name == "public":
                 self.tables[name] = periodictable.elements
+            elif name == "T3":
+                # bare table: isotopes arrive later, through "init" and "grow" operations
+                self.tables[name] = core.PeriodicTable("c08-" + name)
             else:
                 t = core.PeriodicTable("c08-" + name)
                 mass.init(t)
                 density.init(t)
                 self.tables[name] = t
         return self.tables[name]
+
+    def agree(self, tname, Zs):
+        for b, m in check_agreement(self.T(tname), tname, sorted(set(Zs))):
+            raise Violation(b.replace("c08:", "c08:machine:", 1), m)
 
     def see(self, tname, key, x, how):
         """Model: the first object seen for (table, key) is THE object."""
@@ -563,13 +745,33 @@ class _Machine(object):
                 continue
             if kind == "init":
                 try:
+                    if op[1] in ("nsf.init", "activation.init"):
+                        _touch_public(["neutron", "neutron_activation"])
                     _init(self.T(op[2]), op[1])
                 except Exception:  # noqa   not C08's business
                     pass
+                self.agree(op[2], [k[0] for k in keys])
                 continue
             tname = op[1]
             T = self.T(tname)
             key = keys[op[-1] % len(keys)] if kind not in ("bad",) else keys[op[3] % len(keys)]
+            if kind == "list":
+                T[key[0]].isotopes
+                self.agree(tname, [key[0]])
+                continue
+            if kind == "grow":
+                el = T[key[0]]
+                if op[2] % 2:
+                    el.isotopes
+                n = _unused(el, op[2] // 2)
+                self.see(tname, (key[0], n, 0), el.add_isotope(n), "grow")
+                self.agree(tname, [key[0]])
+                continue
+            if key[1]:
+                try:
+                    T[key[0]][key[1]]
+                except KeyError:
+                    continue        # the bare table does not have this isotope (yet)
             if kind == "look":
                 name, thunk = _pick_route(T, key, tname == "public", op[2])
                 self.see(tname, key, thunk(), "look:" + name)
@@ -585,6 +787,11 @@ class _Machine(object):
                 x = canonical(T, key)
                 self.see(tname, key, x, "canonical")
                 t2 = op[2]
+                if key[1]:
+                    try:
+                        self.T(t2)[key[0]][key[1]]
+                    except KeyError:
+                        continue    # the target (bare or grown differently) does not have this isotope
                 y = core.change_table(x, self.T(t2))
                 self.see(t2, key, y, "change_table")
                 self.see(tname, key, core.change_table(y, T), "change_table:back")
@@ -621,7 +828,11 @@ class _Machine(object):
         sym = SYMBOLS[Z]
         isos = el.isotopes
         n_before = len(isos)
-        if what == "charge":
+        if what == "number":
+            ks = number_keys(set(range(119)), 0, 118)
+            label, k, _sub = ks[r % len(ks)]
+            desc, thunk = "table[%s]" % label, (lambda: _match_or_return(lambda: T[k], k, "number"))
+        elif what == "charge":
             cands = [q for q in range(-10, 11) if q and q not in el.ions]
             q = cands[r % len(cands)]
             parent = el[A] if A else el
@@ -757,8 +968,9 @@ def tasks(tier):
            ("invalid-public", task_invalid, dict(cfg="public")),
            ("invalid-private-a", task_invalid, dict(cfg="private-a")),
            ("invalid-private-b", task_invalid, dict(cfg="private-b"))]
+    out += [("growth-" + v, task_growth, dict(variant=v)) for v in GROWTH_VARIANTS]
     if tier == "quick":
-        out += [("machine-%d" % k, task_machine, dict(n=400, preimport=bool(k % 2))) for k in range(4)]
+        out += [("machine-%d" % k, task_machine, dict(n=300, preimport=bool(k % 2))) for k in range(4)]
     else:
         out += [("machine-%d" % k, task_machine, dict(n=2500, preimport=bool(k % 2))) for k in range(12)]
     return out
@@ -768,6 +980,9 @@ def replay(ctx, case):
     kind = case["kind"]
     if kind == "machine":
         check_machine(ctx, [case["atoms"], case["ops"]])
+        return
+    if kind == "growth":
+        growth_history(case["variant"], lambda b, m: ctx.violation(b, m, case))
         return
     if kind == "after-load":
         T = table("public")
